@@ -17,7 +17,7 @@ open RgVerif RgVerif.ParWalk
 worker) never exceeds its number of occurrences in the tree — nothing is duplicated or invented —
 and equals it as long as no visitor has asked to quit — nothing is lost. -/
 theorem inv_conserved {n : Nat} {roots : List Tree} {s : State} (hn : 0 < n)
-    (h : Reachable n roots s) (x : Nat) :
+    (h : Reachable n roots s) (x : Label) :
     s.visited.count x + held n x s ≤ (entriesL roots).count x ∧
     (s.quitAsked = false → s.visited.count x + held n x s = (entriesL roots).count x) :=
   conserved hn h x
@@ -223,9 +223,9 @@ theorem unfair_spin {n : Nat} {s : State} {w : Nat} (hw : w < n) (hpc : s.pc w =
 "`active_workers` reaches 0 while an idle thief holds stolen work" run to completion; the hypotheses
 of `C07_safe` hold of the final state and all four entries were visited. -/
 example : ∃ s, Reachable 2 demoRoots s ∧ AllExited 2 s ∧ s.quitAsked = false ∧
-    s.visited = [0, 2, 3, 1] := by
+    s.visited = [[0], [2], [3], [1]] := by
   have h : ((runActs 2 demoSched (init 2 demoRoots)).map fun s =>
-      (allExitedB 2 s, s.quitAsked, s.visited)) = some (true, false, [0, 2, 3, 1]) := by decide
+      (allExitedB 2 s, s.quitAsked, s.visited)) = some (true, false, [[0], [2], [3], [1]]) := by decide
   cases e : runActs 2 demoSched (init 2 demoRoots) with
   | none => rw [e] at h; cases h
   | some s =>
